@@ -1,1 +1,114 @@
+//! VerifVM: a real MMTk VM binding instrumented for runtime monitoring.
+pub mod cfg;
+pub mod obj;
+pub mod prog;
+pub mod shadow;
+pub mod vm;
+pub mod world;
 
+use std::sync::atomic::Ordering;
+use vcommon::{Report, J};
+
+/// Run one generated multi-mutator program in this process and print the reports.
+pub fn run(cfg: cfg::Config) -> ! {
+    vcommon::abort_on_panic();
+    let seed = cfg.seed;
+    let nmut = cfg.mutators.max(1);
+    let ops = cfg.ops;
+    if cfg.log_events {
+        mmtk::verif::enable_log(1 << 20);
+    }
+    let w = world::init(cfg);
+    // watchdog: no progress for `watchdog_s` seconds => report inconclusive and exit
+    {
+        let limit = w.cfg.watchdog_s;
+        std::thread::Builder::new()
+            .name("watchdog".into())
+            .spawn(move || {
+                let w = world::world();
+                let mut last = w.last_progress.load(Ordering::Relaxed);
+                let mut idle = 0u64;
+                loop {
+                    std::thread::sleep(std::time::Duration::from_millis(500));
+                    if w.done.load(Ordering::Relaxed) {
+                        return;
+                    }
+                    let now = w.last_progress.load(Ordering::Relaxed);
+                    if now != last {
+                        last = now;
+                        idle = 0;
+                    } else {
+                        idle += 1;
+                        if idle >= 2 * limit {
+                            world::with_report("C01", |r| r.inconclusive(format!("no progress for {} s (ops {}, gcs {})", limit, w.counters.ops.load(Ordering::Relaxed), w.counters.gcs.load(Ordering::Relaxed))));
+                            eprintln!("VERIF-WATCHDOG no progress for {} s", limit);
+                            world::print_reports_and_exit(4);
+                        }
+                    }
+                }
+            })
+            .unwrap();
+    }
+    let mut handles = vec![];
+    for i in 0..nmut {
+        let s = vcommon::mix(seed, i as u64 + 1);
+        handles.push(
+            std::thread::Builder::new()
+                .name(format!("mutator-{}", i))
+                .spawn(move || {
+                    let idx = world::bind_mutator();
+                    let mut m = prog::Mut::new(idx, s);
+                    m.run(ops);
+                    world::mutator_finished();
+                })
+                .unwrap(),
+        );
+    }
+    for h in handles {
+        let _ = h.join();
+    }
+    finish()
+}
+
+pub fn finish() -> ! {
+    let w = world::world();
+    // final quiescent check: all mutators are done, no GC can be running unless concurrent work
+    // is still in flight; wait for a pending pause to finish first
+    for _ in 0..2000 {
+        if !w.stop_flag.load(Ordering::SeqCst) {
+            break;
+        }
+        std::thread::sleep(std::time::Duration::from_millis(1));
+    }
+    let c = &w.counters;
+    let summary = J::obj(vec![
+        ("config", J::s(w.cfg.describe())),
+        ("variant", J::s(cfg::variant_name())),
+        ("ops", J::i(c.ops.load(Ordering::Relaxed))),
+        ("allocs", J::i(c.allocs.load(Ordering::Relaxed))),
+        ("gcs", J::i(c.gcs.load(Ordering::Relaxed))),
+        ("copies", J::i(c.copies.load(Ordering::Relaxed))),
+        ("scans", J::i(c.scans.load(Ordering::Relaxed))),
+    ]);
+    {
+        let sh = w.shadow.lock().unwrap();
+        let kinds: Vec<(String, u64)> = sh.gc_kinds.iter().map(|(k, v)| (k.clone(), *v)).collect();
+        drop(sh);
+        let mut reps = w.reports.lock().unwrap();
+        for name in ["C01", "C02", "C03"] {
+            reps.entry(name.to_string()).or_insert_with(|| Report::new(name));
+        }
+        for r in reps.values_mut() {
+            r.note(format!("variant {} {}", cfg::variant_name(), w.cfg.describe()));
+            r.count(&format!("processes_plan_{}", w.cfg.plan), 1);
+            r.count("gcs", c.gcs.load(Ordering::Relaxed));
+            for (k, v) in &kinds {
+                r.count(&format!("gc_kind_{}", k), *v);
+            }
+        }
+        if let Some(r) = reps.get_mut("C01") {
+            r.sample(summary);
+        }
+    }
+    world::print_reports_and_exit(0)
+}
